@@ -230,7 +230,7 @@ func (c *Ctx) oblige(kind, name, label string, props []string, goal string, pos 
 	}
 	c.obls = append(c.obls, o)
 	// known finding with an 'except' predicate: the obligation is re-proved outside the known input class
-	if f := c.prog.Findings[name]; f != nil && f.Except != "" && c.topFrame != nil && !strings.HasSuffix(name, "~except") {
+	if f := c.prog.findingFor(name); f != nil && f.Except != "" && c.topFrame != nil && !strings.HasSuffix(name, "~except") {
 		ex, err := parseExpr(f.Except)
 		if err == nil {
 			top := c.topFrame
@@ -491,6 +491,11 @@ func isReturnOnly(b *ssa.BasicBlock) bool {
 		case *ssa.RunDefers, *ssa.DebugRef:
 		case *ssa.UnOp:
 			if x.Op != token.MUL {
+				return false
+			}
+		case *ssa.Store:
+			// copying into the (local) result variable
+			if al, ok := x.Addr.(*ssa.Alloc); !ok || al.Heap {
 				return false
 			}
 		default:
